@@ -13,9 +13,11 @@ res() { echo "$id: $*"; }
 ( cd "$T/mut" && go test -vet=off -count=1 ./... ) >"$T/suite.log" 2>&1; suite=$?
 [ $suite -ne 0 ] && { res "SUITE-FAILS-WITH-CHANGE"; grep -E "^(FAIL|---)" "$T/suite.log" | head -3; exit 0; }
 demo_dir=$(ls -d "$src"/demo* 2>/dev/null | head -1)
-mkdir -p "$T/mut/zz_demo" "$T/clean/zz_demo"; cp -r "$demo_dir"/* "$T/mut/zz_demo/"; cp -r "$demo_dir"/* "$T/clean/zz_demo/"
-( cd "$T/mut" && timeout 300 go test -vet=off -count=1 ./zz_demo/... ) >"$T/demo_mut.log" 2>&1; dm=$?
-( cd "$T/clean" && timeout 300 go test -vet=off -count=1 ./zz_demo/... ) >"$T/demo_clean.log" 2>&1; dc=$?
+# the authors were told to name their demo directories zz_demo_a / zz_demo_b (multi-package demos import by that path)
+zz=zz_demo_$(echo "$name" | sed 's/^mut//' | tr 'A-Z' 'a-z')
+mkdir -p "$T/mut/$zz" "$T/clean/$zz"; cp -r "$demo_dir"/* "$T/mut/$zz/"; cp -r "$demo_dir"/* "$T/clean/$zz/"
+( cd "$T/mut" && timeout 300 go test -vet=off -count=1 ./$zz/... ) >"$T/demo_mut.log" 2>&1; dm=$?
+( cd "$T/clean" && timeout 300 go test -vet=off -count=1 ./$zz/... ) >"$T/demo_clean.log" 2>&1; dc=$?
 [ $dm -eq 0 ] && { res "DEMO-PASSES-WITH-CHANGE (not a demonstration at current HEAD)"; exit 0; }
 [ $dc -ne 0 ] && { res "DEMO-FAILS-WITHOUT-CHANGE"; tail -5 "$T/demo_clean.log"; exit 0; }
 verdict=$(cd /verif && tools/trymut.sh "$src/patch.diff" "$prop" 2>&1 | tail -1)
